@@ -22,6 +22,10 @@ def path_contents(rng, thorough):
     t1 = encgen.literals(rng, SLICE, 'skew')
     add('treeless-reuse', t1 + t1[::-1][:50000])
     add('raw-between-similar', t1[:SLICE] + rng.bytes(SLICE) + t1[::-1][:40000])
+    # nearly incompressible full blocks followed by a permutation of themselves
+    for pp in (0.0005, 0.001, 0.002, 0.004):
+        wb = encgen.weak_skew(rng, SLICE, pp)
+        add('weak-skew-pair', wb + wb[::-1][:60000])
     # literal counts around the size-format thresholds (no matches: bytes over a wide alphabet without repeats of 5)
     for n in (1023, 1024, 1025, 1026, 16383, 16384, 16385):
         add('literals-%d' % n, encgen.literals(rng, n, 'skew'))
